@@ -12,7 +12,8 @@ What is NOT here (and cannot be, with special functions as parameters): that the
 `_hyp2f1_laplace`, `_hyp1f1_laplace`, `_hyperu_laplace` are within a few percent of the true hypergeometric
 functions, and the support inequalities that depend on that accuracy (e.g. `t_j < E[t_i]` from
 `mn_i = t_j (1 - d0)`).  Those are examined only by the quadrature oracle of `harness/props/c18.py`.
-`C18_statement` below records the full claim; the theorems are its algebraic part.
+`C18_statement` below records the full claim; the theorems are its algebraic part (continued in
+`Props/C18Closed.lean`: the exact closed-form cases).
 -/
 import TsdateVerif.Proofs.Kernels
 
@@ -241,218 +242,6 @@ theorem mutation_block_projection_valid_or_skip (F : SpecFns α) (t_i t_j : α) 
       simp [this]
   · left; simp [hv]
 
-/-! ## 2. The closed-form cases are exact -/
-
-/-- **Child at time zero is conjugate.**  With the child fixed at 0 the tilted density of the parent is
-`Gamma(a+1+y, b+μ)`; whenever the update is not skipped, the returned natural parameters are exactly
-`(a + y, b + μ)` — for every interpretation of the special functions. -/
-theorem rootward_t0_conjugate (F : SpecFns α) (a b y mu logl : α) (q : α × α)
-    (h : rootward_projection F 0 (a, b) (y, mu) = (some logl, q)) : q = (a + y, b + mu) := by
-  rcases rootward_projection_valid_or_skip F 0 (a, b) (y, mu) with hs | ⟨l, mn, va, hm, q', hq, hfit⟩
-  · rw [hs] at h; simp at h
-  · rw [hq] at h
-    have hq' : q' = q := by simpa using (Prod.mk.inj h).2
-    subst hq'
-    simp only [rootward_moments, Nat.cast_zero, feq_self, if_true] at hm
-    split_ifs at hm with hv
-    simp only [Option.some.injEq, Prod.mk.injEq] at hm
-    obtain ⟨-, hmn, hva⟩ := hm
-    have hg := (valid_gamma_iff F _ _).1 (by simpa using hv)
-    obtain ⟨-, hs, hr⟩ := hg
-    obtain ⟨hsh, hrt⟩ := gammaFit_unique _ _ _ hfit
-    have hr' : mu + b ≠ 0 := ne_of_gt hr
-    have hs' : a + 1 + y ≠ 0 := ne_of_gt hs
-    rw [← hmn, ← hva] at hsh hrt
-    ext
-    · have : q'.1 + 1 = a + 1 + y := by rw [hsh]; field_simp
-      linarith
-    · rw [hrt]; field_simp; ring
-
-/-- The conjugate update is really taken (not skipped) whenever the arguments are finite, the cavity shape plus
-the mutation count is positive and the total rate is positive. -/
-theorem rootward_t0_not_skipped (F : SpecFns α) (hfin : ∀ x, F.isFinite x = true) (a b y mu : α)
-    (hs : 0 < a + 1 + y) (hr : 0 < mu + b) :
-    ∃ logl, rootward_projection F 0 (a, b) (y, mu) = (some logl, (a + y, b + mu)) := by
-  have hv : _valid_gamma F (a + 1 + y) (mu + b) = true := (valid_gamma_iff F _ _).2 ⟨⟨hfin _, hfin _⟩, hs, hr⟩
-  have hr' : mu + b ≠ 0 := ne_of_gt hr
-  have hs' : a + 1 + y ≠ 0 := ne_of_gt hs
-  have hm : _valid_moments F ((a + 1 + y) / (mu + b)) ((a + 1 + y) / ((mu + b) * (mu + b))) = true :=
-    (valid_moments_iff F _ _).2 ⟨⟨hfin _, hfin _⟩, by positivity, by positivity⟩
-  refine ⟨F.lgamma (a + 1 + y) - (a + 1 + y) * F.log (mu + b), ?_⟩
-  simp only [rootward_projection, rootward_moments, Nat.cast_one, Nat.cast_zero, feq_self, hv, hm,
-    approximate_gamma_mom, Bool.not_true, Bool.false_eq_true, if_false, if_true]
-  refine Prod.ext rfl (Prod.ext ?_ ?_)
-  · show (a + 1 + y) / (mu + b) * ((a + 1 + y) / (mu + b)) / ((a + 1 + y) / ((mu + b) * (mu + b))) - 1 = a + y
-    field_simp; ring
-  · show (a + 1 + y) / (mu + b) / ((a + 1 + y) / ((mu + b) * (mu + b))) = b + mu
-    field_simp; ring
-
-/-- **Twin blocks are conjugate**: whenever not skipped, the update of a node that is both parents of a singleton
-block returns exactly `(a + y, b + 2μ)`. -/
-theorem twin_conjugate (F : SpecFns α) (a b y mu logl : α) (q : α × α)
-    (h : twin_projection F (a, b) (y, mu) = (some logl, q)) : q = (a + y, b + 2 * mu) := by
-  rcases twin_projection_valid_or_skip F (a, b) (y, mu) with hs | ⟨q', hq, hfit⟩
-  · rw [hs] at h; simp at h
-  · rw [hq] at h
-    have hq' : q' = q := by simpa using (Prod.mk.inj h).2
-    subst hq'
-    obtain ⟨h1, h2, h3, h4⟩ := hfit
-    simp only [twin_moments, Nat.cast_ofNat] at h3 h4
-    have h2' : q'.2 ≠ 0 := ne_of_gt h2
-    have h1' : q'.1 + 1 ≠ 0 := ne_of_gt h1
-    -- mean m = s / r and variance v = s / r² with s = shape, r = rate determine (s, r) = (m²/v, m/v)
-    have hr : b + 2 * mu ≠ 0 := by
-      intro h0
-      rw [h0, div_zero] at h3
-      exact absurd h3 (ne_of_gt (div_pos h1 h2))
-    have hs : a + 1 + y ≠ 0 := by
-      intro h0
-      rw [h0, zero_div] at h3
-      exact absurd h3 (ne_of_gt (div_pos h1 h2))
-    have e1 : (q'.1 + 1) * (b + 2 * mu) = (a + 1 + y) * q'.2 := by
-      field_simp at h3; linarith
-    have e2 : (q'.1 + 1) * ((b + 2 * mu) * (b + 2 * mu)) = (a + 1 + y) * q'.2 ^ 2 := by
-      field_simp at h4; linarith
-    have e3 : q'.2 = b + 2 * mu := by
-      have : (a + 1 + y) * q'.2 * (b + 2 * mu) = (a + 1 + y) * q'.2 * q'.2 := by
-        linear_combination (-(b + 2 * mu)) * e1 + e2
-      have hne : (a + 1 + y) * q'.2 ≠ 0 := mul_ne_zero hs h2'
-      exact (mul_left_cancel₀ hne this).symm
-    have e4 : q'.1 + 1 = a + 1 + y := by
-      rw [e3] at e1; exact mul_right_cancel₀ hr e1
-    ext
-    · show q'.1 = a + y; linarith
-    · exact e3
-
-/-- **Both ends fixed**: the mutation age is uniform on the edge — mean `(t_i + t_j)/2`, variance `(t_i − t_j)²/12`. -/
-theorem edge_uniform_exact (F : SpecFns α) (t_i t_j : α) :
-    mutation_edge_moments F t_i t_j = ((t_i + t_j) / 2, (t_i - t_j) ^ 2 / 12) := by
-  simp only [mutation_edge_moments, Nat.cast_one, Nat.cast_ofNat]
-  refine Prod.ext ?_ ?_ <;> simp only <;> ring
-
-/-- … and that mean lies strictly between the two ends, with positive variance. -/
-theorem edge_uniform_between (F : SpecFns α) (t_i t_j : α) (h : t_j < t_i) :
-    t_j < (mutation_edge_moments F t_i t_j).1 ∧ (mutation_edge_moments F t_i t_j).1 < t_i ∧
-      0 < (mutation_edge_moments F t_i t_j).2 := by
-  rw [edge_uniform_exact]
-  have : t_i - t_j ≠ 0 := ne_of_gt (sub_pos.2 h)
-  refine ⟨by simp only; linarith, by simp only; linarith, by simp only; positivity⟩
-
-/-- **Block between two fixed parents** (ages `t_i, t_j > 0`): the mutation is under parent `i` with probability
-`t_i/(t_i+t_j)`, its age has mean `(t_i² + t_j²) / (2 (t_i + t_j))` and second moment `(t_i³ + t_j³)/(3 (t_i+t_j))`
-(mixture of two uniforms). -/
-theorem block_mixture_exact (F : SpecFns α) (t_i t_j : α) (hi : 0 < t_i) (hj : 0 < t_j) :
-    (mutation_block_moments F t_i t_j).1 = t_i / (t_i + t_j) ∧
-    (mutation_block_moments F t_i t_j).2.1 = (t_i ^ 2 + t_j ^ 2) / (2 * (t_i + t_j)) ∧
-    (mutation_block_moments F t_i t_j).2.2
-      = (t_i ^ 3 + t_j ^ 3) / (3 * (t_i + t_j)) - ((t_i ^ 2 + t_j ^ 2) / (2 * (t_i + t_j))) ^ 2 := by
-  have hs : t_i + t_j ≠ 0 := ne_of_gt (add_pos hi hj)
-  simp only [mutation_block_moments, Nat.cast_one, Nat.cast_ofNat]
-  refine ⟨by first | trivial | rfl, ?_, ?_⟩ <;> field_simp <;> ring
-
-/-- … with phase probability strictly inside `(0, 1)`, mean inside the support `(0, max t_i t_j)`, variance > 0. -/
-theorem block_mean_in_support (F : SpecFns α) (t_i t_j : α) (hi : 0 < t_i) (hj : 0 < t_j) :
-    0 < (mutation_block_moments F t_i t_j).1 ∧ (mutation_block_moments F t_i t_j).1 < 1 ∧
-    0 < (mutation_block_moments F t_i t_j).2.1 ∧ (mutation_block_moments F t_i t_j).2.1 < max t_i t_j ∧
-    0 < (mutation_block_moments F t_i t_j).2.2 := by
-  obtain ⟨h1, h2, h3⟩ := block_mixture_exact F t_i t_j hi hj
-  have hs : 0 < t_i + t_j := add_pos hi hj
-  rw [h1, h2, h3]
-  refine ⟨by positivity, by rw [div_lt_one hs]; linarith, by positivity, ?_, ?_⟩
-  · rw [div_lt_iff₀ (by positivity)]
-    rcases le_total t_i t_j with hle | hle
-    · rw [max_eq_right hle]; nlinarith
-    · rw [max_eq_left hle]; nlinarith
-  · have key : (t_i ^ 3 + t_j ^ 3) / (3 * (t_i + t_j)) - ((t_i ^ 2 + t_j ^ 2) / (2 * (t_i + t_j))) ^ 2
-        = (t_i ^ 4 + t_j ^ 4 + 4 * t_i * t_j * (t_i ^ 2 + t_j ^ 2) - 6 * t_i ^ 2 * t_j ^ 2)
-            / (12 * (t_i + t_j) ^ 2) := by
-      field_simp; ring
-    rw [key]
-    apply div_pos _ (by positivity)
-    nlinarith [sq_nonneg (t_i - t_j), sq_nonneg (t_i + t_j), mul_pos hi hj, sq_nonneg (t_i ^ 2 - t_j ^ 2),
-      mul_pos (mul_pos hi hj) (mul_pos hi hj)]
-
-/-- **Mutation above a fixed child** (`t_m` uniform between `t_j` and the parent age `t_i`): the mutation moments
-are the midpoint-of-uniform algebra applied to the parent's moments: mean `(E t_i + t_j)/2`, variance
-`Var t_i / 3 + (E t_i − t_j)² / 12` (law of total variance); skipped exactly when the parent update is. -/
-theorem mutation_rootward_from_parent (F : SpecFns α) (t_j a_i b_i y mu : α) :
-    mutation_rootward_moments F t_j a_i b_i y mu =
-      (rootward_moments F t_j a_i b_i y mu).map
-        (fun r => ((r.2.1 + t_j) / 2, r.2.2 / 3 + (r.2.1 - t_j) ^ 2 / 12)) := by
-  simp only [mutation_rootward_moments, Nat.cast_ofNat]
-  cases rootward_moments F t_j a_i b_i y mu with
-  | none => rfl
-  | some r =>
-    simp only [Option.map_some]
-    congr 1
-    refine Prod.ext ?_ ?_ <;> simp only <;> ring
-
-/-- Mirror image for a mutation below a fixed parent. -/
-theorem mutation_leafward_from_child (F : SpecFns α) (t_i a_j b_j y mu : α) :
-    mutation_leafward_moments F t_i a_j b_j y mu =
-      (leafward_moments F t_i a_j b_j y mu).map
-        (fun r => ((r.2.1 + t_i) / 2, r.2.2 / 3 + (r.2.1 - t_i) ^ 2 / 12)) := by
-  simp only [mutation_leafward_moments, Nat.cast_ofNat]
-  cases leafward_moments F t_i a_j b_j y mu with
-  | none => rfl
-  | some r =>
-    simp only [Option.map_some]
-    congr 1
-    refine Prod.ext ?_ ?_ <;> simp only <;> ring
-
-/-- Hence: if the node mean is in its support (`t_j < E t_i`, variance > 0) then the mutation mean lies strictly
-between the child and the parent mean, with positive variance. -/
-theorem mutation_rootward_between (F : SpecFns α) (t_j a_i b_i y mu logl mn_i va_i : α)
-    (h : rootward_moments F t_j a_i b_i y mu = some (logl, mn_i, va_i)) (hsup : t_j < mn_i) (hva : 0 < va_i) :
-    ∃ mn_m va_m, mutation_rootward_moments F t_j a_i b_i y mu = some (mn_m, va_m) ∧
-      t_j < mn_m ∧ mn_m < mn_i ∧ 0 < va_m := by
-  rw [mutation_rootward_from_parent, h]
-  refine ⟨_, _, rfl, by simp only; linarith, by simp only; linarith, by simp only; positivity⟩
-
-theorem mutation_leafward_between (F : SpecFns α) (t_i a_j b_j y mu logl mn_j va_j : α)
-    (h : leafward_moments F t_i a_j b_j y mu = some (logl, mn_j, va_j)) (hsup : mn_j < t_i) (hva : 0 < va_j) :
-    ∃ mn_m va_m, mutation_leafward_moments F t_i a_j b_j y mu = some (mn_m, va_m) ∧
-      mn_j < mn_m ∧ mn_m < t_i ∧ 0 < va_m := by
-  rw [mutation_leafward_from_child, h]
-  refine ⟨_, _, rfl, by simp only; linarith, by simp only; linarith, by simp only; positivity⟩
-
-/-- **Twin block, mutation age**: phase 1/2, mean `s/(2r)`, variance `s (s + 4) / (12 r²)` with
-`s = a_i + y`, `r = b_i + 2μ` (uniform below a `Gamma(s, r)` age). -/
-theorem mutation_twin_exact (F : SpecFns α) (a_i b_i y mu : α) (hr : b_i + 2 * mu ≠ 0) :
-    mutation_twin_moments F a_i b_i y mu =
-      (1 / 2, (a_i + y) / (2 * (b_i + 2 * mu)), (a_i + y) * (a_i + y + 4) / (12 * (b_i + 2 * mu) ^ 2)) := by
-  simp only [mutation_twin_moments, Nat.cast_one, Nat.cast_ofNat]
-  refine Prod.ext rfl (Prod.ext ?_ ?_) <;> simp only <;> field_simp <;> try ring
-
-/-- **First-moment identity, both ends free.**  For the tilted density
-`t_i^{a_i-1} t_j^{a_j-1} (t_i-t_j)^y e^{-(μ+b_i) t_i + (μ-b_j) t_j}` the scaling identity
-`(μ+b_i) E t_i − (μ−b_j) E t_j = a_i + a_j + y` holds exactly; the returned means satisfy it exactly, whatever
-the accuracy of the Laplace approximation of the hypergeometric function. -/
-theorem moments_first_moment_identity (F : SpecFns α) (a_i b_i a_j b_j y mu logl mn_i va_i mn_j va_j : α)
-    (h : moments F a_i b_i a_j b_j y mu = some (logl, mn_i, va_i, mn_j, va_j)) :
-    (mu + b_i) * mn_i - (mu - b_j) * mn_j = a_i + a_j + y := by
-  simp only [moments, Nat.cast_zero] at h
-  split_ifs at h with ht hv
-  simp only [Option.some.injEq, Prod.mk.injEq] at h
-  obtain ⟨-, hmi, -, hmj, -⟩ := h
-  have ht' : mu + b_i ≠ 0 := ne_of_gt (by simpa using ht)
-  rw [← hmi, ← hmj]
-  field_simp
-  ring
-
-/-- Same for the unphased block: `(μ+b_i) E t_i + (μ+b_j) E t_j = a_i + a_j + y`. -/
-theorem unphased_first_moment_identity (F : SpecFns α) (a_i b_i a_j b_j y mu logl mn_i va_i mn_j va_j : α)
-    (h : unphased_moments F a_i b_i a_j b_j y mu = some (logl, mn_i, va_i, mn_j, va_j)) :
-    (mu + b_i) * mn_i + (mu + b_j) * mn_j = a_i + a_j + y := by
-  simp only [unphased_moments, Nat.cast_zero] at h
-  split_ifs at h with ht hv
-  simp only [Option.some.injEq, Prod.mk.injEq] at h
-  obtain ⟨-, hmi, -, hmj, -⟩ := h
-  have ht' : mu + b_i ≠ 0 := ne_of_gt (by simpa using ht)
-  rw [← hmi, ← hmj]
-  field_simp
-  ring
-
 /-! ## 3. The wrappers add no failure of their own; the hyperu / 1F1 kernels never trip an assert -/
 
 /-- `approximate_gamma_mom` is only ever called on validated moments: the only way `gamma_projection` can raise
@@ -547,20 +336,7 @@ def C18_statement (F : SpecFns α) (tol : α)
     rootward_moments F t_j a_i b_i y mu = some (logl, mn, va) →
     t_j < mn ∧ 0 < va ∧ |mn - trueMean t_j a_i b_i y mu| ≤ tol * trueMean t_j a_i b_i y mu
 
-/-! ## Non-vacuity -/
-
-/-- The hypotheses of the conjugacy theorem are met by a concrete update (at `Rat`, special functions trivial):
-cavity `(a, b) = (2, 1/2)`, 3 mutations, span·rate 1/4: posterior `(5, 3/4)`. -/
-example : ∃ logl, rootward_projection (α := Rat) ⟨id, id, id, id, fun _ => true⟩ 0 (2, 1/2) (3, 1/4)
-    = (some logl, (5, 3/4)) := by
-  obtain ⟨l, h⟩ := rootward_t0_not_skipped (α := Rat) ⟨id, id, id, id, fun _ => true⟩ (fun _ => rfl) 2 (1/2) 3 (1/4)
-    (by norm_num) (by norm_num)
-  exact ⟨l, by rw [h]; norm_num⟩
-
-example : mutation_edge_moments (α := Rat) ⟨id, id, id, id, fun _ => true⟩ 10 4 = (7, 3) := by
-  rw [edge_uniform_exact]; norm_num
-
-example : (mutation_block_moments (α := Rat) ⟨id, id, id, id, fun _ => true⟩ 3 1).1 = 3 / 4 := by
-  rw [(block_mixture_exact _ 3 1 (by norm_num) (by norm_num)).1]; norm_num
+/-! Non-vacuity examples for the closed forms are in `Props/C18Closed.lean`; the valid-or-skip theorems are total
+(no hypotheses). -/
 
 end Tsdate.C18
